@@ -88,7 +88,7 @@ def main(argv):
     fixed_f = [f for f in findings.get("fixed", []) if f["property"] == prop]
 
     # ---- P
-    pb = core.build_and_audit(prop, thorough=(tier == "thorough"))
+    pb = core.build_and_audit(prop, thorough=(tier == "thorough"), extra_targets=tuple(spec.get("lake_targets", ())))
     log(f"[P] {prop}: stage={pb['stage']} ok={pb['ok']} theorems={len(pb['theorems'])}")
     violations = []       # dicts: kind, replay payload
     known_hits = {}
